@@ -320,6 +320,10 @@ class Check:
     # ---- lemmas over contracts
     def lemma(self, name, claim, assumptions=(), model_vars=None):
         ob = Obligation('lemma', name, 'lemma', list(assumptions), claim, True)
+        if assumptions:        # vacuity guard: the hypotheses of a lemma must be satisfiable together
+            so = z3.Solver(); so.set('timeout', 5000); so.add(*assumptions)
+            if so.check() == z3.unsat:
+                self.faults.append(f'lemma {name}: its assumptions are contradictory (vacuous)')
         discharge(ob, model_vars)
         self.lemmas.append(ob)
         if ob.result != 'discharged':
